@@ -3,8 +3,8 @@
 use winnow::{
     ascii::space0,
     combinator::{
-        alt, delimited, dispatch, opt, peek, permutation, preceded, separated_foldl1, terminated,
-        trace,
+        alt, delimited, dispatch, fail, opt, peek, permutation, preceded, separated_foldl1,
+        terminated, trace,
     },
     error::{FromExternalError, ParserError},
     stream::{AsChar, Stream, StreamIsPartial},
@@ -16,6 +16,10 @@ use crate::syntax::{expr, pretty_decimal};
 
 use super::{adaptor::ParseOptions, character::paren, error, primitive};
 
+/// Maximum nesting depth of parentheses in a value expression.
+/// The parser is recursive, so the depth needs a bound not to exhaust the stack.
+const MAX_EXPR_DEPTH: usize = 100;
+
 /// Parses value expression.
 pub fn value_expr<'i, I, E>(input: &mut I) -> winnow::Result<expr::ValueExpr<'i>, E>
 where
@@ -23,14 +27,7 @@ where
     E: ParserError<I> + FromExternalError<I, pretty_decimal::Error>,
     <I as Stream>::Token: AsChar + Clone,
 {
-    trace(
-        "expr::value_expr",
-        dispatch! {peek(any);
-            '(' => paren_expr,
-            _ => amount.map(expr::ValueExpr::Amount),
-        },
-    )
-    .parse_next(input)
+    nested_value_expr(input, 0)
 }
 
 impl<'i> TryFrom<&'i str> for expr::ValueExpr<'i> {
@@ -43,26 +40,58 @@ impl<'i> TryFrom<&'i str> for expr::ValueExpr<'i> {
     }
 }
 
-fn paren_expr<'i, I, E>(input: &mut I) -> winnow::Result<expr::ValueExpr<'i>, E>
+/// Parses value expression already nested in `depth` parentheses.
+fn nested_value_expr<'i, I, E>(
+    input: &mut I,
+    depth: usize,
+) -> winnow::Result<expr::ValueExpr<'i>, E>
 where
     I: Stream<Token = char, Slice = &'i str> + StreamIsPartial + Clone,
     E: ParserError<I> + FromExternalError<I, pretty_decimal::Error>,
     <I as Stream>::Token: AsChar + Clone,
 {
     trace(
-        "expr::paren_expr",
-        paren(delimited(space0, add_expr, space0)).map(expr::ValueExpr::Paren),
+        "expr::value_expr",
+        dispatch! {peek(any);
+            '(' => |i: &mut I| paren_expr(i, depth),
+            _ => amount.map(expr::ValueExpr::Amount),
+        },
     )
     .parse_next(input)
 }
 
-fn add_expr<'i, I, E>(input: &mut I) -> winnow::Result<expr::Expr<'i>, E>
+fn paren_expr<'i, I, E>(input: &mut I, depth: usize) -> winnow::Result<expr::ValueExpr<'i>, E>
 where
     I: Stream<Token = char, Slice = &'i str> + StreamIsPartial + Clone,
     E: ParserError<I> + FromExternalError<I, pretty_decimal::Error>,
     <I as Stream>::Token: AsChar + Clone,
 {
-    trace("expr::add_expr", infixl(add_op, mul_expr)).parse_next(input)
+    if depth >= MAX_EXPR_DEPTH {
+        return fail.parse_next(input);
+    }
+    trace(
+        "expr::paren_expr",
+        paren(delimited(
+            space0,
+            |i: &mut I| add_expr(i, depth + 1),
+            space0,
+        ))
+        .map(expr::ValueExpr::Paren),
+    )
+    .parse_next(input)
+}
+
+fn add_expr<'i, I, E>(input: &mut I, depth: usize) -> winnow::Result<expr::Expr<'i>, E>
+where
+    I: Stream<Token = char, Slice = &'i str> + StreamIsPartial + Clone,
+    E: ParserError<I> + FromExternalError<I, pretty_decimal::Error>,
+    <I as Stream>::Token: AsChar + Clone,
+{
+    trace(
+        "expr::add_expr",
+        infixl(add_op, |i: &mut I| mul_expr(i, depth)),
+    )
+    .parse_next(input)
 }
 
 fn add_op<I, E>(input: &mut I) -> winnow::Result<expr::BinaryOp, E>
@@ -81,13 +110,17 @@ where
     .parse_next(input)
 }
 
-fn mul_expr<'i, I, E>(input: &mut I) -> winnow::Result<expr::Expr<'i>, E>
+fn mul_expr<'i, I, E>(input: &mut I, depth: usize) -> winnow::Result<expr::Expr<'i>, E>
 where
     I: Stream<Token = char, Slice = &'i str> + StreamIsPartial + Clone,
     E: ParserError<I> + FromExternalError<I, pretty_decimal::Error>,
     <I as Stream>::Token: AsChar + Clone,
 {
-    trace("expr::mul_expr", infixl(mul_op, unary_expr)).parse_next(input)
+    trace(
+        "expr::mul_expr",
+        infixl(mul_op, |i: &mut I| unary_expr(i, depth)),
+    )
+    .parse_next(input)
 }
 
 fn mul_op<I, E>(input: &mut I) -> winnow::Result<expr::BinaryOp, E>
@@ -106,7 +139,7 @@ where
     .parse_next(input)
 }
 
-fn unary_expr<'i, I, E>(input: &mut I) -> winnow::Result<expr::Expr<'i>, E>
+fn unary_expr<'i, I, E>(input: &mut I, depth: usize) -> winnow::Result<expr::Expr<'i>, E>
 where
     I: Stream<Token = char, Slice = &'i str> + StreamIsPartial + Clone,
     E: ParserError<I> + FromExternalError<I, pretty_decimal::Error>,
@@ -115,8 +148,8 @@ where
     trace(
         "expr::unary_expr",
         dispatch! {peek(any);
-            '-' => negate_expr,
-            _ => value_expr.map(|ve| expr::Expr::Value(Box::new(ve))),
+            '-' => |i: &mut I| negate_expr(i, depth),
+            _ => (|i: &mut I| nested_value_expr(i, depth)).map(|ve| expr::Expr::Value(Box::new(ve))),
         },
     )
     .parse_next(input)
@@ -165,7 +198,7 @@ impl<'i> TryFrom<&'i str> for expr::Amount<'i> {
     }
 }
 
-fn negate_expr<'i, I, E>(input: &mut I) -> winnow::Result<expr::Expr<'i>, E>
+fn negate_expr<'i, I, E>(input: &mut I, depth: usize) -> winnow::Result<expr::Expr<'i>, E>
 where
     I: Stream<Token = char, Slice = &'i str> + StreamIsPartial + Clone,
     E: ParserError<I> + FromExternalError<I, pretty_decimal::Error>,
@@ -173,7 +206,7 @@ where
 {
     trace(
         "expr::negate_expr",
-        preceded(one_of('-'), value_expr).map(|ve| {
+        preceded(one_of('-'), |i: &mut I| nested_value_expr(i, depth)).map(|ve| {
             expr::Expr::Unary(expr::UnaryOpExpr {
                 op: expr::UnaryOp::Negate,
                 expr: Box::new(expr::Expr::Value(Box::new(ve))),
@@ -268,6 +301,20 @@ mod tests {
                 })
             )
         );
+    }
+
+    #[test]
+    fn value_expr_nesting_is_bounded() {
+        let nested = |n: usize| format!("{}1{}", "(".repeat(n), ")".repeat(n));
+        let input = nested(MAX_EXPR_DEPTH);
+        assert_eq!(expect_parse_ok(value_expr, &input).0, "");
+        // deeper nesting is a parse error rather than a stack overflow
+        for n in [MAX_EXPR_DEPTH + 1, 100_000] {
+            let input = nested(n);
+            value_expr::<_, winnow::error::ContextError>
+                .parse_peek(input.as_str())
+                .expect_err("too deeply nested expression must be rejected");
+        }
     }
 
     fn amount_expr<T: Into<Decimal>>(value: T, commodity: &'static str) -> expr::Expr<'static> {
